@@ -22,6 +22,7 @@ namespace Srtla.SelShell
 open Srtla Srtla.Gen Srtla.Conn Srtla.Select Srtla.Rtt Srtla.Link Srtla.Sys Scalar
 
 variable {F : Type} [Scalar F]
+variable {fa : List (Nat × Nat)}
 
 /-- Erase what a routing decision may write; keep every liveness / accounting field. -/
 def liveAcct (l : FLink F) : FLink F :=
@@ -47,8 +48,8 @@ theorem liveAcct_takeBatch (l : FLink F) (now : Nat) :
 theorem liveAcct_markForRecovery (l : FLink F) : (liveAcct l).markForRecovery = liveAcct l.markForRecovery := rfl
 
 theorem liveAcct_sendBatch (l : FLink F) (now : Nat) (fn : List Nat) :
-    sendConnectionBatch (liveAcct l) now fn =
-      (liveAcct (sendConnectionBatch l now fn).1, (sendConnectionBatch l now fn).2) := by
+    sendConnectionBatch fa (liveAcct l) now fn =
+      (liveAcct (sendConnectionBatch fa l now fn).1, (sendConnectionBatch fa l now fn).2) := by
   unfold sendConnectionBatch
   rw [liveAcct_takeBatch]
   dsimp only
@@ -61,8 +62,8 @@ theorem liveAcct_sendBatch (l : FLink F) (now : Nat) (fn : List Nat) :
 /-- **The data path commutes with `liveAcct`**: queue, threshold flush, tear-down on a failed flush —
 link, wire output and remaining fault set. -/
 theorem liveAcct_fwdLink (l : FLink F) (pkt : Link.Bytes) (seq : Option Nat) (now : Nat) (fn : List Nat) :
-    Hk.fwdLink (liveAcct l) pkt seq now fn =
-      (liveAcct (Hk.fwdLink l pkt seq now fn).1, (Hk.fwdLink l pkt seq now fn).2) := by
+    Hk.fwdLink fa (liveAcct l) pkt seq now fn =
+      (liveAcct (Hk.fwdLink fa l pkt seq now fn).1, (Hk.fwdLink fa l pkt seq now fn).2) := by
   unfold Hk.fwdLink
   rw [liveAcct_queue]
   dsimp only
@@ -78,9 +79,9 @@ theorem liveAcct_fwdLink (l : FLink F) (pkt : Link.Bytes) (seq : Option Nat) (no
 fields only. -/
 theorem liveAcct_fwdLink_congr {a b : FLink F} (h : liveAcct a = liveAcct b) (pkt : Link.Bytes)
     (seq : Option Nat) (now : Nat) (fn : List Nat) :
-    liveAcct (Hk.fwdLink a pkt seq now fn).1 = liveAcct (Hk.fwdLink b pkt seq now fn).1 := by
-  have h1 := congrArg Prod.fst (liveAcct_fwdLink a pkt seq now fn)
-  have h2 := congrArg Prod.fst (liveAcct_fwdLink b pkt seq now fn)
+    liveAcct (Hk.fwdLink fa a pkt seq now fn).1 = liveAcct (Hk.fwdLink fa b pkt seq now fn).1 := by
+  have h1 := congrArg Prod.fst (liveAcct_fwdLink (fa := fa) a pkt seq now fn)
+  have h2 := congrArg Prod.fst (liveAcct_fwdLink (fa := fa) b pkt seq now fn)
   dsimp only at h1 h2
   rw [← h1, ← h2, h]
 
@@ -91,8 +92,8 @@ theorem liveAcct_stallProbeDue (l : FLink F) : liveAcct l.stallProbeDue.1 = live
 
 /-- A probe visit: nothing, or a copy queued exactly like a routed datagram. -/
 theorem liveAcct_probeLink (l : FLink F) (pkt : Link.Bytes) (seq : Option Nat) (now : Nat) (fn : List Nat) :
-    liveAcct (Hk.probeLink l pkt seq now fn).1 = liveAcct l ∨
-    liveAcct (Hk.probeLink l pkt seq now fn).1 = liveAcct (Hk.fwdLink l pkt seq now fn).1 := by
+    liveAcct (Hk.probeLink fa l pkt seq now fn).1 = liveAcct l ∨
+    liveAcct (Hk.probeLink fa l pkt seq now fn).1 = liveAcct (Hk.fwdLink fa l pkt seq now fn).1 := by
   unfold Hk.probeLink
   split
   · exact .inl (liveAcct_stallProbeDue l)
@@ -120,10 +121,10 @@ is what the earlier sends of the same event left of `s.failNext`: nothing is eve
 /-- `stallProbesGo_link` with the origin of the probe's fault list: it is below the list the pass started with. -/
 theorem stallProbesGo_link_fn (pkt : Sys.Bytes) (seq : Option Nat) (now sel : Nat) (ls : List (FLink F)) (i : Nat)
     (fn : List Nat) (k : Nat) (m : FLink F) (hm : ls[k]? = some m) :
-    ∃ l', (stallProbesGo pkt seq now sel ls i fn).1[k]? = some l' ∧
+    ∃ l', (stallProbesGo fa pkt seq now sel ls i fn).1[k]? = some l' ∧
       ((l' = m ∧ (i + k = sel ∨ m.stallGated = false ∨ m.core.connected = false)) ∨
        (i + k ≠ sel ∧ m.stallGated = true ∧ m.core.connected = true ∧
-          ∃ fn', Hk.FnLe fn fn' ∧ l' = (Hk.probeLink m pkt seq now fn').1)) := by
+          ∃ fn', Hk.FnLe fn fn' ∧ l' = (Hk.probeLink fa m pkt seq now fn').1)) := by
   induction ls generalizing i fn k with
   | nil => simp at hm
   | cons a rest ih =>
@@ -170,7 +171,7 @@ theorem client_probe_fn (s : Sys F) (pkt : Sys.Bytes) (now j : Nat) (m l' : FLin
     (ht : clientTarget s pkt now ≠ some j) (hpass : passRan s pkt = true)
     (hseq : (Codec.getSrtSequenceNumberS pkt).isSome = true) (hsome : (clientTarget s pkt now).isSome = true)
     (hg : m.stallGated = true) (hc : m.core.connected = true) :
-    ∃ fn, Hk.FnLe s.failNext fn ∧ l' = (Hk.probeLink m pkt (Codec.getSrtSequenceNumberS pkt) now fn).1 := by
+    ∃ fn, Hk.FnLe s.failNext fn ∧ l' = (Hk.probeLink s.failAfter m pkt (Codec.getSrtSequenceNumberS pkt) now fn).1 := by
   have hne : pkt.isEmpty = false := by
     unfold passRan at hpass
     cases h : pkt.isEmpty
@@ -209,7 +210,8 @@ theorem client_probe_fn (s : Sys F) (pkt : Sys.Bytes) (now j : Nat) (m l' : FLin
     · exact absurd (by omega) hji
     · rw [hg] at h; cases h
     · rw [hc] at h; cases h
-    · exact ⟨fn', f2.trans hle, e⟩
+    · rw [Hk.forwardVia_runSelect_failAfter] at e
+      exact ⟨fn', f2.trans hle, e⟩
 
 /-- What a `client` event does to the liveness / accounting fields of link `j`. -/
 inductive ClientAcct (s : Sys F) (pkt : Sys.Bytes) (now j : Nat) (l l' : FLink F) : Prop
@@ -217,7 +219,7 @@ inductive ClientAcct (s : Sys F) (pkt : Sys.Bytes) (now j : Nat) (l l' : FLink F
   | idle (ht : clientTarget s pkt now ≠ some j) (h : liveAcct l' = liveAcct l)
   /-- the target -/
   | target (ht : clientTarget s pkt now = some j)
-      (h : liveAcct l' = liveAcct (Hk.fwdLink l pkt (Codec.getSrtSequenceNumberS pkt) now s.failNext).1)
+      (h : liveAcct l' = liveAcct (Hk.fwdLink s.failAfter l pkt (Codec.getSrtSequenceNumberS pkt) now s.failNext).1)
   /-- a duplicate probe copy on a link the guard of THIS pass holds stall-gated: registered session,
   data packet, guard on, link connected and latched or silence-pulled; the fault list `fn` its threshold flush
   sees is what the earlier sends of this event left of `s.failNext` (no conn id more often than there) -/
@@ -226,7 +228,7 @@ inductive ClientAcct (s : Sys F) (pkt : Sys.Bytes) (now j : Nat) (l l' : FLink F
       (hsome : (clientTarget s pkt now).isSome = true) (hc : l.core.connected = true)
       (hg : l'.core.connected = false ∨ l'.latchedSince ≠ 0 ∨ l'.silencePulled = true)
       (h : ∃ fn, (∀ a, fn.count a ≤ s.failNext.count a) ∧
-        liveAcct l' = liveAcct (Hk.fwdLink l pkt (Codec.getSrtSequenceNumberS pkt) now fn).1)
+        liveAcct l' = liveAcct (Hk.fwdLink s.failAfter l pkt (Codec.getSrtSequenceNumberS pkt) now fn).1)
 
 omit [Scalar F] in
 theorem passRan_iff' (s : Sys F) (pkt : Sys.Bytes) :
